@@ -14,6 +14,9 @@ import time
 
 VERIF = os.path.dirname(os.path.dirname(os.path.abspath(__file__)))
 REPO = os.environ.get("VERIF_REPO", "/repo")
+# where evidence/ and replays/ are written: /verif, unless a tool that runs the checks against a modified scratch copy of
+# the repository (tools/seed_matrix.py) redirects them so that the registered evidence is not overwritten
+OUT = os.environ.get("VERIF_OUT") or VERIF
 SPEC = os.path.join(VERIF, "spec")
 PY = "/venv/bin/python"
 TLA_JAR = "/opt/veriftools/tla/tla2tools.jar"
@@ -198,7 +201,7 @@ class Report:
         self.assumptions = []
         self.notes = []
         self.findings = load_findings(prop)
-        shutil.rmtree(os.path.join(VERIF, "replays", prop), ignore_errors=True)
+        shutil.rmtree(os.path.join(OUT, "replays", prop), ignore_errors=True)
 
     def violation(self, key, what, replay=None):
         """key: canonical string identifying the failing case (matched exactly with known witnesses)."""
@@ -239,13 +242,13 @@ class Report:
               "known_findings_reproduced": sorted(self.known_hits)}
         if self.notes:
             ev["notes"] = self.notes
-        os.makedirs(os.path.join(VERIF, "evidence"), exist_ok=True)
-        with open(os.path.join(VERIF, "evidence", self.prop + ".json"), "w") as fh:
+        os.makedirs(os.path.join(OUT, "evidence"), exist_ok=True)
+        with open(os.path.join(OUT, "evidence", self.prop + ".json"), "w") as fh:
             json.dump(ev, fh, indent=1, default=str)
         for fid, (f, keys) in sorted(self.known_hits.items()):
             print("KNOWN-FINDING: property=%s %s %s (%d witness case(s) reproduced)" % (self.prop, fid, f["what"], len(set(keys))))
         if self.violations:
-            rdir = os.path.join(VERIF, "replays", self.prop)
+            rdir = os.path.join(OUT, "replays", self.prop)
             os.makedirs(rdir, exist_ok=True)
             for i, (key, what, replay) in enumerate(self.violations[:50]):
                 path = os.path.join(rdir, "v%03d.json" % i)
